@@ -97,6 +97,8 @@ func outputTupleDir(v rel.Value, dir string, fs afero.Fs, dryRun bool) error {
 				return err
 			}
 		}
+	} else if err != nil {
+		return err
 	}
 
 	// this is to allow empty directory
